@@ -79,6 +79,10 @@ Check C13_probe_accept_schedule :
   (exists bls b, brun (binit c (map fst tg)) bls = Some b /\ returned (core b) = Some (bo_res o) /\
                  begins (bo_events o) = rev (drawn (draws b))) /\
   is_prefix (begins (bo_events o)) (map fst tg) = true.
+Check C13_probe_accept_complete :
+  forall c interval tg oracle,
+  exists o, btimed_run (bfuel c tg) oracle interval tg (btinit c interval tg) = Some o /\
+            baccept_guided c interval tg o = true.
 Print Assumptions C13_ignorable_table.
 Print Assumptions C13_bound.
 Print Assumptions C13_result.
@@ -100,3 +104,4 @@ Print Assumptions C13_exhausted_sound.
 Print Assumptions C13_probe_guided.
 Print Assumptions C13_probe_accept_sound.
 Print Assumptions C13_probe_accept_schedule.
+Print Assumptions C13_probe_accept_complete.
